@@ -52,6 +52,7 @@ fn gens(tier: Tier) -> Vec<Gen> {
         // one case = (limit, delta index, kind): 13 x 5 x 8, each with 3 field-count variants
         Gen::exhaustive("grid", (LIMITS.len() * 5 * KINDS) as u64),
         Gen::new("random_sizes", tier.pick(2, 2_000, 200_000)),
+        Gen::new("handles_across_settings", tier.pick(2, 1_500, 150_000)),
     ]
 }
 
@@ -85,7 +86,7 @@ fn viol(rep: &mut Report, rule: &str, detail: String, case: &serde_json::Value) 
 
 /// regular fields whose sizes add up to exactly `target` (each field costs name+value+32), using
 /// `nfields` fields if possible. Returns None when not constructible.
-fn filler_fields(target: u64, nfields: usize) -> Option<Fields> {
+fn filler_fields(target: u64, nfields: usize, wide: bool) -> Option<Fields> {
     if target == 0 {
         return Some(vec![]);
     }
@@ -103,7 +104,9 @@ fn filler_fields(target: u64, nfields: usize) -> Option<Fields> {
         out.push((format!("f{}", i), vec![b'v']));
         rest -= 35;
     }
-    out.push(("a".to_string(), vec![b'w'; (rest - 33) as usize]));
+    // `wide`: obs-text bytes, legal in a field value, whose Huffman codes are 26..28 bits long - the
+    // encoded block of such a section is longer than its size by the RFC rule
+    out.push(("a".to_string(), vec![if wide { 0xf9 } else { b'w' }; (rest - 33) as usize]));
     let total: u64 = out.iter().map(|(n, v)| n.len() as u64 + v.len() as u64 + 32).sum();
     if total != target {
         return None;
@@ -140,7 +143,7 @@ enum SettingsMode {
 }
 
 /// Build a section of exactly `s` bytes for (role, kind); None if not constructible.
-fn section_fields(server_receives: bool, kind: Kind, s: u64, nfields: usize) -> Option<(Vec<rq::Field>, Fields)> {
+fn section_fields(server_receives: bool, kind: Kind, s: u64, nfields: usize, wide: bool) -> Option<(Vec<rq::Field>, Fields)> {
     let (pseudo, base): (Vec<rq::Field>, u64) = match (kind, server_receives) {
         (Kind::Trailers, _) => (vec![], 0),
         (Kind::Head, true) => (REQ_PSEUDO.iter().map(|(n, v)| (n.as_bytes().to_vec(), v.as_bytes().to_vec())).collect(), req_pseudo_size()),
@@ -149,7 +152,7 @@ fn section_fields(server_receives: bool, kind: Kind, s: u64, nfields: usize) -> 
     if s < base {
         return None;
     }
-    let extra = filler_fields(s - base, nfields)?;
+    let extra = filler_fields(s - base, nfields, wide)?;
     let mut all = pseudo;
     all.extend(to_ref_fields(&extra));
     debug_assert_eq!(rq::section_size(&all), s);
@@ -164,6 +167,8 @@ struct Scn {
     limit: u64,
     s: u64,
     nfields: usize,
+    /// the big value consists of bytes that Huffman coding lengthens (block longer than the RFC size)
+    wide: bool,
     mode: SettingsMode,
     /// limit advertised by the raw peer (relevant for 431 and for sends)
     peer_limit: u64,
@@ -206,15 +211,15 @@ fn run_scn(c: &Scn, seed: u64, rep: &mut Report) {
     };
     let c = &c;
     let case = json!({"direction": if c.recv { "receive" } else { "send" }, "h3_role": if c.h3_server { "server" } else { "client" }, "kind": format!("{:?}", c.kind),
-                      "limit_L": c.limit, "section_size_s": c.s, "fields": c.nfields, "settings": format!("{:?}", c.mode), "peer_advertised_limit": c.peer_limit});
+                      "limit_L": c.limit, "section_size_s": c.s, "fields": c.nfields, "huffman_lengthened_value": c.wide, "settings": format!("{:?}", c.mode), "peer_advertised_limit": c.peer_limit});
     let mut rng = Rng::new(seed);
-    let Some((ref_fields, extra)) = section_fields(c.recv == c.h3_server, c.kind, c.s, c.nfields) else {
+    let Some((ref_fields, extra)) = section_fields(c.recv == c.h3_server, c.kind, c.s, c.nfields, c.wide) else {
         rep.count("not_constructible");
         return;
     };
     rep.evaluations += 1;
     rep.count("scenarios");
-    rep.sig(hash64(&(c.recv, c.h3_server, c.kind, c.limit, c.s, c.nfields, c.mode, c.peer_limit)));
+    rep.sig(hash64(&(c.recv, c.h3_server, c.kind, c.limit, c.s, c.nfields, c.mode, c.peer_limit, c.wide)));
     rep.count(&format!("settings_mode[{}]", match c.mode { SettingsMode::Never => "never", SettingsMode::Applied => "applied", SettingsMode::AppliedWithoutLimit => "applied, no limit among the parameters", SettingsMode::Late => "late(after the stream exists, before the send)" }));
     if c.s == c.limit && c.recv || (!c.recv && c.s == c.peer_limit) {
         rep.count("size_exactly_at_limit");
@@ -270,6 +275,12 @@ fn run_scn(c: &Scn, seed: u64, rep: &mut Report) {
     rep.count(if app_split { "app_stream[split]" } else { "app_stream[whole]" });
     // messages the h3 application sends (send direction) or the raw peer sends (receive direction)
     let section = rq::encode_section(&ref_fields, &rq::EncOpts { huffman: rng.bool(), ..Default::default() });
+    if c.recv && section.len() as u64 > c.s {
+        rep.count("received_block_longer_than_its_rfc_size");
+        if c.s <= c.limit && section.len() as u64 > c.limit {
+            rep.count("received_block_longer_than_the_limit_but_section_within_it");
+        }
+    }
     let small_trailers = rq::encode_section(&[(b"t".to_vec(), b"1".to_vec())], &rq::EncOpts::default());
     if c.h3_server {
         // application response: in the send direction it carries the section under test
@@ -542,7 +553,159 @@ fn kind_from(k: usize) -> (bool, bool, Kind) {
     (k & 1 == 0, k & 2 == 0, if k & 4 == 0 { Kind::Head } else { Kind::Trailers })
 }
 
+/// A client's SendRequest handle (or a clone of it, made before or after) is used for a first, small
+/// request while the server's SETTINGS have not arrived, then the SETTINGS arrive with a finite limit,
+/// then the same handle sends the request under test: the limit in force is the advertised one.
+fn handle_across_settings(seed: u64, rep: &mut Report) {
+    use crate::sim::SimConn;
+    let mut rng = Rng::new(seed);
+    rep.evaluations += 1;
+    let l = *rng.pick(&LIMITS);
+    let l = if l > 60_000 || l < req_pseudo_size() { 200 + rng.below(3000) } else { l };
+    let s = match rng.below(5) {
+        0 => l,
+        1 => l + 1,
+        2 => l.saturating_sub(1),
+        3 => l + 33 + rng.below(400),
+        _ => req_pseudo_size() + rng.below(l.saturating_sub(req_pseudo_size()).max(1)),
+    };
+    let which = rng.below(3);
+    let wide = rng.chance(1, 4);
+    let warmups = 1 + rng.usize(2);
+    let handle_name = ["the same handle", "a clone made before the first request", "a clone made after the SETTINGS"][which as usize];
+    let case = json!({"scenario": "one SendRequest handle used before and after the server's SETTINGS arrive", "advertised_limit": l, "section_size_s": s,
+                      "handle": handle_name, "requests_before_settings": warmups});
+    let Some((_, extra)) = section_fields(true, Kind::Head, s, 1 + rng.usize(8), wide) else {
+        rep.count("scenario_not_constructible");
+        return;
+    };
+    rep.sig(hash64(&("across", l, s, which, wide, warmups)));
+    rep.count("handles_across_settings");
+    rep.count(&format!("handle_used[{}]", ["same", "clone before first request", "clone after settings"][which as usize]));
+    let mut cfg = NetCfg::random(&mut rng);
+    cfg.backpressure = rng.chance(1, 3);
+    if s > 3000 && (cfg.chunk_style == 1 || cfg.chunk_style == 2) {
+        cfg.chunk_style = 3;
+    }
+    let net = sim::new_net(cfg);
+    let ctrl;
+    {
+        let mut n = lock(&net);
+        raw::mark_raw(&mut n, SERVER);
+        ctrl = n.raw_open(SERVER, false);
+        n.raw_write(SERVER, ctrl, &[0x00]);
+    }
+    let probe = Probe::new(&net);
+    let mut sched = Sched::new(net.clone(), rng.next());
+    let sp = sched.spawner.clone();
+    let (p, net2) = (probe.clone(), net.clone());
+    let big = Msg { method: "GET".into(), uri: "https://example.com/".into(), headers: extra, ..Default::default() };
+    sched.spawn("c:conn", async move {
+        let r = p
+            .call("c:conn", "build", h3::client::builder().send_grease(false).build::<_, _, Bytes>(SimConn::<Bytes>::new(&net2, CLIENT)), |r| match r {
+                Ok(_) => Out::Ok,
+                Err(e) => Out::ConnErr(apps::ConnErr::from_h3(e)),
+            })
+            .await;
+        let Ok((mut conn, send)) = r else { return };
+        let p2 = p.clone();
+        sp.spawn("c:driver", async move {
+            let _ = p2.call("c:driver", "wait_idle", std::future::poll_fn(|cx| conn.poll_close(cx)), |e| Out::ConnErr(apps::ConnErr::from_h3(e))).await;
+            p2.park(conn);
+        });
+        let mut h = send;
+        let mut early_clone = h.clone();
+        for i in 0..warmups {
+            let small = Msg { method: "GET".into(), uri: "https://example.com/".into(), ..Default::default() };
+            let r = p
+                .call(&format!("c:warm#{}", i), "send_request", h.send_request(small.to_request()), |r| match r {
+                    Ok(s) => Out::Opened(s.id().into_inner()),
+                    Err(e) => Out::Err(AErr::from_h3(e)),
+                })
+                .await;
+            p.park(r.ok());
+        }
+        p.gate_wait().await;
+        let mut late_clone = h.clone();
+        let hh = match which {
+            0 => &mut h,
+            1 => &mut early_clone,
+            _ => &mut late_clone,
+        };
+        let r = p
+            .call("c:req", "send_request", hh.send_request(big.to_request()), |r| match r {
+                Ok(s) => Out::Opened(s.id().into_inner()),
+                Err(e) => Out::Err(AErr::from_h3(e)),
+            })
+            .await;
+        p.park(r.ok());
+        p.park((h, early_clone, late_clone));
+    });
+    if sched.run(400_000) == RunEnd::StepCap {
+        rep.inconclusive("step cap (handles_across_settings, phase 1)");
+        return;
+    }
+    let warm_done = probe.events().iter().filter(|e| e.actor.starts_with("c:warm#") && matches!(e.out, Out::Opened(_))).count();
+    if warm_done != warmups {
+        rep.count("warm_up_requests_not_sent");
+        return;
+    }
+    sched.add_script(vec![raw::step_write(SERVER, ctrl, rf::settings_frame(&[(rf::S_MAX_FIELD_SECTION_SIZE, l)]))]);
+    if sched.run(400_000) == RunEnd::StepCap {
+        rep.inconclusive("step cap (handles_across_settings, phase 2)");
+        return;
+    }
+    probe.gate_open();
+    if sched.run(3_000_000) == RunEnd::StepCap {
+        rep.inconclusive("step cap (handles_across_settings, phase 3)");
+        return;
+    }
+    if let Some((t, pn)) = sched.first_panic() {
+        viol(rep, &format!("panic[{} {}]", pn.file(), pn.msg_key()), format!("task {}: {} at {}", t, pn.msg, pn.loc), &case);
+        return;
+    }
+    let evs = probe.events();
+    let got = evs.iter().find(|e| e.actor == "c:req" && e.op == "send_request").map(|e| e.out.clone());
+    let n = lock(&net);
+    if let Some(cl) = n.closed.as_ref().filter(|cl| cl.by == CLIENT && cl.code != rf::H3_NO_ERROR) {
+        viol(rep, "connection-error", format!("h3 closed the connection with {:#x} in a size-limit scenario", cl.code), &case);
+        return;
+    }
+    // what went out on the stream the request under test would use
+    let sid = 4 * warmups as u64;
+    let wire: Vec<u8> = n.streams.get(&sid).map(|st| st.pipe(CLIENT).sent.clone()).unwrap_or_default();
+    let (frames, _) = rf::segment(&wire);
+    let sent_sizes: Vec<u64> = frames
+        .iter()
+        .filter(|f| f.ty == rf::T_HEADERS)
+        .filter_map(|f| match rq::judge_stateless(&f.payload) {
+            rq::Stateless::MustAccept(fl) | rq::Stateless::DontCare(fl, _) => Some(rq::section_size(&fl)),
+            _ => None,
+        })
+        .collect();
+    let ok = s <= l;
+    rep.count(if ok { "expect[send ok]" } else { "expect[send refuse]" });
+    if let Some(big_sent) = sent_sizes.iter().find(|x| **x > l) {
+        viol(rep, "sent-section-larger-than-advertised-limit[send_request after late SETTINGS on a used handle]", format!("a section of {} bytes went out although the peer's SETTINGS (limit {}) had been applied before the call", big_sent, l), &case);
+        return;
+    }
+    match (ok, got) {
+        (true, Some(Out::Opened(_))) => {}
+        (false, Some(Out::Err(AErr::HeaderTooBig { actual, max }))) => {
+            if max != l || actual != s {
+                viol(rep, "HeaderTooBig-reports-other-numbers[send_request]", format!("HeaderTooBig {{ actual {}, max {} }} for a section of {} bytes against the advertised limit {}", actual, max, s, l), &case);
+            }
+        }
+        (true, other) => viol(rep, "section-within-peer-limit-not-sent[send_request]", format!("section of {} bytes, advertised limit {}: send_request gave {:?}", s, l, other.as_ref().map(short)), &case),
+        (false, other) => viol(rep, "oversized-section-not-refused[send_request]", format!("section of {} bytes, advertised limit {}: send_request gave {:?}", s, l, other.as_ref().map(short)), &case),
+    }
+}
+
 fn run_case(gen: &str, index: u64, seed: u64, _tier: Tier, rep: &mut Report) {
+    if gen == "handles_across_settings" {
+        handle_across_settings(seed, rep);
+        return;
+    }
     let mut rng = Rng::new(seed);
     match gen {
         "grid" => {
@@ -560,9 +723,9 @@ fn run_case(gen: &str, index: u64, seed: u64, _tier: Tier, rep: &mut Report) {
                         Kind::Trailers => rng.below(3000),
                     };
                     let scn = if recv {
-                        Scn { recv, h3_server, kind, limit: l, s, nfields: 1 + rng.usize(8), mode: SettingsMode::Applied, peer_limit: (1 << 62) - 1 }
+                        Scn { recv, h3_server, kind, limit: l, s, nfields: 1 + rng.usize(8), wide: rng.chance(1, 3), mode: SettingsMode::Applied, peer_limit: (1 << 62) - 1 }
                     } else {
-                        Scn { recv, h3_server, kind, limit: (1 << 62) - 1, s, nfields: 1 + rng.usize(8), mode: SettingsMode::Applied, peer_limit: l }
+                        Scn { recv, h3_server, kind, limit: (1 << 62) - 1, s, nfields: 1 + rng.usize(8), wide: rng.chance(1, 3), mode: SettingsMode::Applied, peer_limit: l }
                     };
                     run_scn(&scn, rng.next(), rep);
                 }
@@ -572,22 +735,22 @@ fn run_case(gen: &str, index: u64, seed: u64, _tier: Tier, rep: &mut Report) {
                 if recv {
                     // the raw peer's own advertised limit matters for the 431: sweep it around 42
                     for peer in [41u64, 42, 1 << 20] {
-                        let scn = Scn { recv, h3_server, kind, limit: l, s, nfields: nf, mode: SettingsMode::Applied, peer_limit: peer };
+                        let scn = Scn { recv, h3_server, kind, limit: l, s, nfields: nf, wide: rng.chance(1, 3), mode: SettingsMode::Applied, peer_limit: peer };
                         run_scn(&scn, rng.next(), rep);
                         if !(h3_server && kind == Kind::Head) {
                             break; // the peer limit only matters for the 431 path
                         }
                     }
-                    let scn = Scn { recv, h3_server, kind, limit: l, s, nfields: nf, mode: SettingsMode::Never, peer_limit: 0 };
+                    let scn = Scn { recv, h3_server, kind, limit: l, s, nfields: nf, wide: rng.chance(1, 3), mode: SettingsMode::Never, peer_limit: 0 };
                     run_scn(&scn, rng.next(), rep);
                 } else {
-                    let scn = Scn { recv, h3_server, kind, limit: (1 << 62) - 1, s, nfields: nf, mode: SettingsMode::Applied, peer_limit: l };
+                    let scn = Scn { recv, h3_server, kind, limit: (1 << 62) - 1, s, nfields: nf, wide: rng.chance(1, 3), mode: SettingsMode::Applied, peer_limit: l };
                     run_scn(&scn, rng.next(), rep);
-                    let scn = Scn { recv, h3_server, kind, limit: (1 << 62) - 1, s, nfields: nf, mode: SettingsMode::Never, peer_limit: l };
+                    let scn = Scn { recv, h3_server, kind, limit: (1 << 62) - 1, s, nfields: nf, wide: rng.chance(1, 3), mode: SettingsMode::Never, peer_limit: l };
                     run_scn(&scn, rng.next(), rep);
-                    let scn = Scn { recv, h3_server, kind, limit: (1 << 62) - 1, s, nfields: nf, mode: SettingsMode::Late, peer_limit: l };
+                    let scn = Scn { recv, h3_server, kind, limit: (1 << 62) - 1, s, nfields: nf, wide: rng.chance(1, 3), mode: SettingsMode::Late, peer_limit: l };
                     run_scn(&scn, rng.next(), rep);
-                    let scn = Scn { recv, h3_server, kind, limit: (1 << 62) - 1, s, nfields: nf, mode: SettingsMode::AppliedWithoutLimit, peer_limit: l };
+                    let scn = Scn { recv, h3_server, kind, limit: (1 << 62) - 1, s, nfields: nf, wide: rng.chance(1, 3), mode: SettingsMode::AppliedWithoutLimit, peer_limit: l };
                     run_scn(&scn, rng.next(), rep);
                 }
             }
@@ -610,9 +773,9 @@ fn run_case(gen: &str, index: u64, seed: u64, _tier: Tier, rep: &mut Report) {
                 _ => SettingsMode::Applied,
             };
             let scn = if recv {
-                Scn { recv, h3_server, kind, limit: l, s, nfields: 1 + rng.usize(8), mode, peer_limit: *rng.pick(&[0u64, 41, 42, 43, 1000, (1 << 62) - 1]) }
+                Scn { recv, h3_server, kind, limit: l, s, nfields: 1 + rng.usize(8), wide: rng.chance(1, 3), mode, peer_limit: *rng.pick(&[0u64, 41, 42, 43, 1000, (1 << 62) - 1]) }
             } else {
-                Scn { recv, h3_server, kind, limit: *rng.pick(&[0u64, 100, (1 << 62) - 1]), s, nfields: 1 + rng.usize(8), mode, peer_limit: l }
+                Scn { recv, h3_server, kind, limit: *rng.pick(&[0u64, 100, (1 << 62) - 1]), s, nfields: 1 + rng.usize(8), wide: rng.chance(1, 3), mode, peer_limit: l }
             };
             run_scn(&scn, rng.next(), rep);
         }
